@@ -1140,6 +1140,55 @@ theorem fetchPrefix_le (s : Source) : ∀ (bs : List Hdr) (req : Nat), fetchPref
     · have := ih (req + 1); simp only [List.length_cons]; omega
     · omega
 
+/-! ### the header cache holds what was connected last -/
+
+theorem getLast?_append_ne_nil {α : Type} (a b : List α) (h : b ≠ []) : (a ++ b).getLast? = b.getLast? := by
+  induction a with
+  | nil => rfl
+  | cons x a ih => rw [List.cons_append, List.getLast?_cons_of_ne_nil (by simp [h]), ih]
+
+theorem cacheLookUp_blockConnected (c : Cache) (b : Hdr) : cacheLookUp (cacheBlockConnected c b) b.hash = some b := by
+  have hk : cacheKeeps b (cacheCutoff b) = true := by simp [cacheKeeps, cacheCutoff]
+  simp [cacheLookUp, cacheBlockConnected, cacheInsert, List.filter_cons, hk, List.find?_cons]
+
+theorem connectBlocks_no_notifs (s : Source) : ∀ (bs : List Hdr) (tip : Hdr) (c : Cache) (req : Nat),
+    (connectBlocks s bs tip c req).notifs = [] → (connectBlocks s bs tip c req).cache = c := by
+  intro bs
+  cases bs with
+  | nil => intro tip c req _; rfl
+  | cons b rest =>
+    intro tip c req h
+    unfold connectBlocks at h ⊢
+    split
+    · rfl
+    · rename_i hg; simp [hg] at h
+
+/-- the block of the LAST `block_connected` a connect run delivered is in the cache afterwards, under its own hash
+    and with the height the listener was told -/
+theorem connectBlocks_last_cached (s : Source) : ∀ (bs : List Hdr) (tip : Hdr) (c : Cache) (req : Nat) (h ht : Nat),
+    (connectBlocks s bs tip c req).notifs.getLast? = some (.connected h ht) →
+    ∃ b, cacheLookUp (connectBlocks s bs tip c req).cache h = some b ∧ b.hash = h ∧ b.height = ht := by
+  intro bs
+  induction bs with
+  | nil => intro tip c req h ht e; simp [connectBlocks] at e
+  | cons b rest ih =>
+    intro tip c req h ht e
+    unfold connectBlocks at e ⊢
+    split at e
+    · simp at e
+    · rename_i hg
+      simp only [hg] at ⊢
+      simp only at e ⊢
+      by_cases hn : (connectBlocks s rest b (cacheBlockConnected c b) (req + 1)).notifs = []
+      · rw [hn] at e
+        simp at e
+        obtain ⟨e1, e2⟩ := e
+        subst e1 e2
+        rw [connectBlocks_no_notifs s rest b _ _ hn]
+        exact ⟨b, cacheLookUp_blockConnected c b, rfl, rfl⟩
+      · rw [List.getLast?_cons_of_ne_nil hn] at e
+        exact ih b _ _ h ht e
+
 /-! ### start-up sync under ANY outcome (Ok or Err at any request) -/
 
 theorem forall2_map_const {α β γ : Type} {R : α → β → Prop} (c : β) : ∀ (l1 : List α) (l2 : List γ),
